@@ -1,6 +1,7 @@
 //! C03 — parsing arbitrary bytes is total, bounds-safe and terminating.
 //! Append-a-byte tree (depth 3) + exhaustive layout / truncation grids, all on the real parsers.
 use crate::checks::c01::KEYS;
+use crate::refcodec;
 use crate::checks::{load_case, replay_exit};
 use crate::ctx::{Ctx, Tier, catch, hex, panic_site, unhex};
 use lorawan::certification::{DownlinkDUTCommand, UplinkDUTCommand, parse_downlink_dut_commands, parse_uplink_dut_commands};
@@ -524,6 +525,36 @@ pub fn run(tier: Tier, replay: Option<&str>) {
         states.fetch_add(n, Ordering::Relaxed);
     });
 
+    // (b2) every total length up to 255 for the data MHDRs, as is and re-MICed under the key and counter the
+    // accessors are driven with (so the code behind a successful MIC check is reached for every layout,
+    // including ones no builder produces: FPort 0 together with FOpts, FRMPayload of 241/242 bytes, ...)
+    let mhdrs = [0x40u8, 0x60, 0x80, 0xA0, 0xE0];
+    let grid2: Vec<(u8, u32)> = mhdrs.iter().flat_map(|m| (0..=255u32).map(move |f| (*m, f))).collect();
+    grid2.par_iter().for_each(|&(mhdr, fctrl)| {
+        let mut n = 0u64;
+        for len in 6..=255usize {
+            for fk in 0..3u8 {
+                let mut d = filler(fk, len);
+                d[0] = mhdr;
+                d[5] = fctrl as u8;
+                go("frame", &d);
+                n += 1;
+                if len >= 12 {
+                    d[6] = 0;
+                    d[7] = 0;
+                    let devaddr = u32::from_le_bytes([d[1], d[2], d[3], d[4]]);
+                    let dir = if mhdr & 0x20 != 0 { 1 } else { 0 };
+                    let mic = refcodec::data_mic(&KEYS[2], dir, devaddr, 0, &d[..len - 4]);
+                    d[len - 4..].copy_from_slice(&mic);
+                    go("frame", &d);
+                    n += 1;
+                }
+            }
+        }
+        ctx.tick(n);
+        states.fetch_add(n, Ordering::Relaxed);
+    });
+
     // (c2) every CID x every truncation point, alone / preceded by / followed by every defined command
     let combos: Vec<(&str, u8)> = SETS.iter().flat_map(|s| (0..=255u8).map(move |c| (*s, c))).collect();
     combos.par_iter().for_each(|&(set, cid)| {
@@ -589,7 +620,7 @@ pub fn run(tier: Tier, replay: Option<&str>) {
         "samples": samples,
         "evaluations": ctx.evals(),
         "distinct_nontrivial": states.load(Ordering::Relaxed),
-        "rule": "states = byte strings executed on the real parsers: (a) the complete append-a-byte tree to depth 3 for the frame parsers and depth 2 (quick) / 3 (thorough) for each of the six MAC command sets; (b) MHDR(256) x FCtrl(256) x total length 0..=40 x 3 fillers; (c) every CID 0..=255 x every truncation point 0..=max_len+2 x 3 fillers, alone, preceded by and followed by every defined command of the set; (d) variable-length commands with every status byte / every length. transitions = append-a-byte edges of the tree part",
+        "rule": "states = byte strings executed on the real parsers: (a) the complete append-a-byte tree to depth 3 for the frame parsers and depth 2 (quick) / 3 (thorough) for each of the six MAC command sets; (b) MHDR(256) x FCtrl(256) x total length 0..=40 x 3 fillers; (b2) data MHDRs(5) x FCtrl(256) x total length 6..=255 x 3 fillers, as is and with a MIC that verifies; (c) every CID 0..=255 x every truncation point 0..=max_len+2 x 3 fillers, alone, preceded by and followed by every defined command of the set; (d) variable-length commands with every status byte / every length. transitions = append-a-byte edges of the tree part",
         "tree_depth_frames": depth_frame,
         "tree_depth_command_sets": depth_sets,
         "exhaustive": true,
